@@ -25,9 +25,9 @@ CONSTANTS Configs,     \* set of [fmt |-> byte tuple | Null, acc |-> byte tuple 
           OptNames,    \* set of byte strings (runs) offered as option names
           SecNames,    \* set of byte strings (runs) offered as section names
           Values,      \* set of byte strings (runs) offered as values
-          Gaps,        \* decoration ids between items
-          Blanks,      \* decoration ids inside an item
-          Terms,       \* ways a value ends when there is no option end character
+          Decos,       \* decoration profiles [g, g2, b1, b2, b3, term]: one choice per insignificant position
+                       \*   g/g2 gaps between items, b1..b3 blanks inside an item,
+                       \*   term = how a value ends when there is no option end character
           MaxNodes, MaxDepth
 
 VARIABLES cfg,    \* chosen configuration
@@ -174,8 +174,8 @@ Pop(st) == LET m == Len(st) IN
   Append(SubSeq(st, 1, m - 2), [st[m - 1] EXCEPT !.k = Append(@, Node(st[m].n, <<>>, st[m].k))])
 AddLeaf(st, name, v) == [st EXCEPT ![Len(st)].k = Append(@, Node(name, v, <<>>))]
 
-F == FormatOf(cfg.fmt)
-A == AcceptOf(cfg.acc)
+F == cfg.F
+A == cfg.A
 Style == StyleOf(F)
 Nesting == Style = "pre" \/ (Style = "enc" /\ F.ss # F.se)   \* sections are closed by F.se
 Flat    == Style = "sep" \/ (Style = "enc" /\ F.ss = F.se)   \* next header closes the section
@@ -255,15 +255,16 @@ Trailer(g, g2) ==
 
 Quotes == {0} \cup F.esc
 Init ==
-  /\ cfg \in Configs /\ text = <<>> /\ stack = << [n |-> <<>>, k |-> <<>>] >> /\ nn = 0
+  /\ \E c \in Configs : cfg = [fmt |-> c.fmt, acc |-> c.acc, F |-> FormatOf(c.fmt), A |-> AcceptOf(c.acc)]
+  /\ text = <<>> /\ stack = << [n |-> <<>>, k |-> <<>>] >> /\ nn = 0
   /\ obs = [a |-> "none", arg |-> [x |-> 0], exp |-> [ret |-> "ok", tree |-> <<>>, links |-> 0]]
 
 Next ==
-  \/ \E name \in OptNames, v \in Values, q \in Quotes, g \in Gaps, b1 \in Blanks, b2 \in Blanks, b3 \in Blanks,
-        term \in Terms \cup {"end"} : AddOption(name, v, q, g, b1, b2, b3, term)
-  \/ \E name \in SecNames, g \in Gaps, b1 \in Blanks, b2 \in Blanks, g2 \in Gaps : OpenSection(name, g, b1, b2, g2)
-  \/ \E g \in Gaps : CloseSection(g)
-  \/ \E g \in Gaps, g2 \in Gaps : Trailer(g, g2)
+  \/ \E name \in OptNames, v \in Values, q \in Quotes, d \in Decos :
+        AddOption(name, v, q, d.g, d.b1, d.b2, d.b3, IF F.oe # 0 THEN "end" ELSE d.term)
+  \/ \E name \in SecNames, d \in Decos : OpenSection(name, d.g, d.b1, d.b2, d.g2)
+  \/ \E d \in Decos : CloseSection(d.g)
+  \/ \E d \in Decos : Trailer(d.g, d.g2)
 
 Spec == Init /\ [][Next]_vars
 
@@ -315,6 +316,6 @@ ScanAgrees(FF, v, q, b2, b3, ending) ==
 
 ---------------------------------------------------------------------------
 TypeOK ==
-  /\ cfg \in Configs /\ nn \in 0..MaxNodes /\ Len(stack) >= 1
+  /\ [fmt |-> cfg.fmt, acc |-> cfg.acc] \in Configs /\ nn \in 0..MaxNodes /\ Len(stack) >= 1
   /\ obs.exp.ret = "ok"
 =============================================================================
